@@ -22,6 +22,22 @@ def split_prefixes(b):
     return b[:i], b[i:]
 
 
+def pnorm(b):
+    """the same bytes with the legacy prefixes in a fixed order: the order of prefixes carries no meaning"""
+    pfx, rest = split_prefixes(bytes(b))
+    return bytes(sorted(pfx)) + rest
+
+
+def dropped_prefix(b, cands):
+    """'3e' when b without one of its prefix bytes is among the candidates (modulo prefix order), else None: a mechanism, not a feature of the input"""
+    pfx, rest = split_prefixes(bytes(b))
+    have = set(pnorm(x) for x in cands)
+    for i in range(len(pfx)):
+        if pnorm(pfx[:i] + pfx[i + 1:] + rest) in have:
+            return "%02x" % pfx[i]
+    return None
+
+
 def lock_ok(b):
     """is a LOCK prefix architecturally allowed on these bytes? (memory destination of a lockable RMW row)"""
     pfx, rest = split_prefixes(b)
